@@ -6,8 +6,10 @@ P-spec evaluated at every return; TraceFrag = P-spec as trace validator in
 byte units, incl. linearizability for concurrent callers).
 Binding (driver harness/fragd, exported API of fragmentation.Fragmentation):
   graph   every transition of the single-caller TLC graph replayed with real
-          bytes in four block->byte variants (1 B, 8 B, 24 B multi-view, 8 B
-          with a short final block); P-expectation from the model state
+          bytes in five block->byte variants (1 B, 8 B, 8 B / 24 B multi-view with a
+          caller that recycles its view slice like link/fdbased, 8 B with a short
+          final block); P-expectation from the model state.  Every history family
+          below runs half of its histories with the recycling caller.
   seq     seeded sequential histories (several keys, duplicates, overlaps,
           inconsistent sets) validated by TLC against TraceFrag
   long    datagrams of 16..40 8-byte fragments (the hole list outgrows its initial capacity of 16): skip-ahead
@@ -55,10 +57,13 @@ ALL = ['NoCrash', 'DeliverOnlyComplete', 'Incomplete', 'ExactPayload', 'Delivers
 SAFE = ['NoCrash', 'DeliverOnlyComplete', 'Incomplete', 'ExactPayload', 'NeverMixed', 'TimeoutOK', 'Stored', 'LruExact']
 TC = cfg(spec='TSpec', constraint='HWMark', postcondition='Accepted')
 
+# recycle: the caller reuses one []buffer.View slice for every call and nils its slots afterwards, exactly as the
+# fdbased link endpoint does with the frames it hands up (the byte arrays themselves are fresh per frame)
 VARIANTS = [dict(name='x1', scale=1, icompare=True), dict(name='x8', scale=8, icompare=True),
-            dict(name='x24v4', scale=24, views=4), dict(name='x8tail3', scale=8, views=2, tail=3)]
+            dict(name='x8r', scale=8, recycle=True), dict(name='x24v4r', scale=24, views=4, recycle=True),
+            dict(name='x8tail3', scale=8, views=2, tail=3)]
 VARIANTS_MEM = [dict(name='x1', scale=1, icompare=True), dict(name='x8', scale=8, icompare=True),
-                dict(name='x24v4', scale=24, views=4)]
+                dict(name='x24v4r', scale=24, views=4, recycle=True)]
 
 
 def consts(nb, maxarr, keys=1, callers=1, high=99, low=99, timeout=99, maxtick=0, fixd1=True, fixd3=True,
@@ -308,7 +313,7 @@ def gate(ctx, drv):
         # complete interleaving graph of the real code
         sp = os.path.join(ctx.work, 'scenario-%s.json' % name)
         vlib.write_json(sp, dict(callers=[[dict(k=t[0], first=t[1], last=t[2], more=t[3]) for t in c_] for c_ in callers],
-                                 variant=dict(name='x8', scale=sc), max_states=200000))
+                                 variant=dict(name='x8', scale=sc, recycle=bool(si % 2)), max_states=200000))
         g = json.loads(ctx.run([drv, 'gate', sp], timeout=3000).stdout)
         if g.get('nondeterminism'):
             raise vlib.Inconclusive('real code not deterministic under the gate scheduler (%s): %s' % (name, g['nondeterminism'][:2]))
@@ -333,7 +338,7 @@ def gate(ctx, drv):
             seg = [dict(ev='reset', mode='strict', scenario=name, path=k)]
             for e in p:
                 seg.extend(e['events'] or [])
-            items.append(dict(kind='gate', seg=seg, info=dict(scenario=name, callers=callers, moves=[e['move'] for e in p])))
+            items.append(dict(kind='gate', seg=seg, info=dict(scenario=name, callers=callers, recycle=bool(si % 2), moves=[e['move'] for e in p])))
     ctx.extra['gate'] = stats
     ctx.extra['gate_ptraces'] = len(items)
     ctx.extra['accounting_leak_quiescent_states'] = leak
@@ -520,9 +525,9 @@ def replay(ctx, rep):
     elif kind == 'gate':
         ip = os.path.join(ctx.work, 'replay-gate.json')
         vlib.write_json(ip, dict(callers=[[dict(k=t[0], first=t[1], last=t[2], more=t[3]) for t in c_] for c_ in r['callers']],
-                                 variant=dict(name='x8', scale=8), moves=r['moves']))
+                                 variant=dict(name='x8', scale=8, recycle=bool(r.get('recycle'))), moves=r['moves']))
         ctx.run([drv, 'gatepath', ip, tp])
-        validate_all(ctx, [dict(kind='gate', seg=s_, info=dict(scenario=r.get('scenario'), callers=r['callers'], moves=r['moves']))
+        validate_all(ctx, [dict(kind='gate', seg=s_, info=dict(scenario=r.get('scenario'), callers=r['callers'], recycle=bool(r.get('recycle')), moves=r['moves']))
                            for s_ in vlib.split_segments(vlib.read_ndjson(tp))])
     elif kind in ('seq', 'long', 'timeout', 'race'):
         # seeded modes are re-run with the recorded arguments (race: new schedules of the same workload)
